@@ -360,6 +360,47 @@ func checkC05(c *Ctx) {
 			"ViewSucceeded() only when the verified sync info is not a timeout; ViewStarted() on every path after NextView", join(bad))
 	}
 
+	// C05.12 a remote timeout is dropped before its sync info is used only because it did not verify
+	// (its sync info is the recurring way a lagging replica learns the peers' high QC and moves on)
+	{
+		fr := NewFlow(p, ort)
+		isAdv := func(in ssa.Instruction) bool {
+			ci, ok := in.(ssa.CallInstruction)
+			return ok && calleeIs(ci.Common(), adv) && fr.K.Key(ci.Common().Args[1]) == "p1."+kTOMsg+"SyncInfo"
+		}
+		var bad []string
+		n := 0
+		for _, r := range returnsOf(ort) {
+			if !fr.Reachable(r.Block()) {
+				continue
+			}
+			// returns reachable without passing advanceView(timeout.SyncInfo)
+			if cfgSearch(fr, nil, ort.Blocks[0], func(in ssa.Instruction) bool { return in == ssa.Instruction(r) }, isAdv, nil) == nil {
+				continue
+			}
+			n++
+			facts := fr.At(r)
+			failedVerify := notNilOf(facts, func(k string) bool { return strings.HasPrefix(k, kBaseVer) }) ||
+				falseOf(facts, func(k string) bool { return strings.Contains(k, "signedOnlyBy(") })
+			if !failedVerify {
+				bad = append(bad, p.Pos(r.Pos()))
+			}
+		}
+		has := len(callsIn(ort, false, func(cc *ssa.CallCommon) bool { return calleeIs(cc, adv) })) >= 2
+		c.Check(len(bad) == 0 && has, "C05.12", "OnRemoteTimeout: only unverifiable timeouts are dropped before their sync info is used", p.FuncPos(ort),
+			itoa(n)+" early return(s), each on a failed signature / signer check; every other path calls advanceView(timeout.SyncInfo)",
+			"a verified timeout can be dropped at "+join(bad)+" before advanceView(timeout.SyncInfo): a lagging replica never learns the quorum's high QC")
+	}
+	// C05.13 a leader that caught up through sync info fetches the ancestors it lacks before proposing
+	if mp := p.Method("protocol/consensus", "Proposer", "markProposed"); mp != nil {
+		getF := p.Method("security/blockchain", "Blockchain", "Get")
+		lget := p.Method("security/blockchain", "Blockchain", "LocalGet")
+		nGet := len(callsIn(mp, false, func(cc *ssa.CallCommon) bool { return calleeIs(cc, getF) }))
+		nLocal := len(callsIn(mp, false, func(cc *ssa.CallCommon) bool { return calleeIs(cc, lget) }))
+		c.Check(nGet >= 1 && nLocal == 0, "C05.13", "markProposed: missing ancestors are fetched, not only looked up locally", p.FuncPos(mp),
+			itoa(nGet)+" ancestor look-ups, all through Blockchain.Get (local, then fetch from peers)", "ancestor look-ups use LocalGet ("+itoa(nLocal)+"): a leader that learned the high QC from sync info cannot build a proposal")
+	}
+
 	// C05.9 sibling agreement of the timeout rules: a quorum certificate carried by a sync info can advance the view
 	// (otherwise a certified proposal never moves a replica on and every view has to time out)
 	tr := p.Iface("protocol/synchronizer", "TimeoutRuler")
